@@ -98,13 +98,13 @@ Print Assumptions history_safe_dup_refuted.
    invariant w.r.t. its effective registrations *)
 Theorem history_inv_partial : forall h st rc,
   run init_state h = Fine st rc -> Inv (ghost [] h) st.
-Proof. intros h st rc H. apply (run_inv_all h [] init_state st rc init_inv H). Qed.
+Proof. exact history_inv_init. Qed.
 Print Assumptions history_inv_partial.
 
 (* the class of histories that cannot hit the stale slot: no register after a
    restrict unless a dup or an XML reload came in between *)
 Theorem history_safe_partial : forall h, stale_free false h = true -> run init_state h <> Fatal F_STALE.
-Proof. intros h H. apply (run_stale_free h init_state false); [intros _; constructor|exact H]. Qed.
+Proof. exact history_stale_free_init. Qed.
 Print Assumptions history_safe_partial.
 
 Theorem history_in_bounds : forall h st, run st h <> Fatal F_OOB.
@@ -112,11 +112,7 @@ Proof. exact run_no_oob. Qed.
 Print Assumptions history_in_bounds.
 
 Theorem history_no_undefined_shift : forall h, no_xml h -> (length h <= 29)%nat -> run init_state h <> Fatal F_UB.
-Proof.
-  intros h Hx Hl. apply run_no_ub; [exact Hx|].
-  change (N.of_nat (length (kinds init_state)) + 1)%N with 1%N. rewrite N.mul_1_l.
-  apply N.pow_le_mono_r; [discriminate|lia].
-Qed.
+Proof. exact history_no_ub_init. Qed.
 Print Assumptions history_no_undefined_shift.
 
 (* ---- hwloc_cpukinds_get_by_cpuset ---- *)
@@ -131,24 +127,12 @@ Theorem get_by_cpuset_exact : forall regs st q,
   | G_ENOENT => forall k, In k (kinds st) -> bs_intersects q (k_cpuset k) = false
   | G_EINVAL => False
   end.
-Proof.
-  intros regs st q HI Hq. unfold get_by_cpuset. simpl. rewrite Hq.
-  destruct (Inv_partition regs st HI) as [P1 _].
-  pose proof (getby_loop_spec q (kinds st) 0 Hq) as G.
-  assert (H1 : Forall (fun k => bs_is_empty (k_cpuset k) = false) (kinds st)) by (apply Forall_forall; exact P1).
-  assert (H2 : forall p, (cnt (kinds st) p <= 1)%nat).
-  { intros p. rewrite (inv_part _ _ HI). destruct (registered regs p); simpl; auto. }
-  specialize (G H1 H2). destruct (getby_loop q (kinds st) 0); auto.
-  destruct G as [i [k [-> G]]]. exists k. exact G.
-Qed.
+Proof. exact get_by_cpuset_spec. Qed.
 Print Assumptions get_by_cpuset_exact.
 
 Theorem get_by_cpuset_einval : forall st q fl,
   (fl <> 0%N \/ q = None \/ q = Some bs_empty) -> get_by_cpuset st q fl = G_EINVAL.
-Proof.
-  intros st q fl H. unfold get_by_cpuset. destruct (N.eqb_spec fl 0) as [->|Hf]; simpl; [|reflexivity].
-  destruct H as [H|[->| ->]]; [contradiction|reflexivity|reflexivity].
-Qed.
+Proof. exact get_by_cpuset_einval_spec. Qed.
 Print Assumptions get_by_cpuset_einval.
 
 (* ---- ranking ---- *)
@@ -162,10 +146,7 @@ Print Assumptions efficiencies_all_unknown_or_permutation.
 (* ... and so after every history *)
 Theorem history_efficiencies : forall h st rc,
   run init_state h = Fine st rc -> ranked (kinds st) \/ unranked (kinds st).
-Proof.
-  intros h st rc H. apply (run_effs h init_state st rc); [|exact H].
-  left. intros [|i] k; discriminate.
-Qed.
+Proof. exact history_effs_init. Qed.
 Print Assumptions history_efficiencies.
 
 (* ranking only permutes the kinds; when efficiencies are known the kinds are
@@ -194,9 +175,7 @@ Print Assumptions forced_ranking_respected.
 Theorem xml_reload_same_kinds : forall env regs st st' rc,
   Inv regs st -> xml_reload env st = Fine st' rc ->
   kinds st' = rank_kinds env (map fresh (kinds st)) /\ Inv regs st'.
-Proof.
-  intros env regs st st' rc HI H. split; [eapply xml_reload_kinds; eauto|eapply xml_reload_inv; eauto].
-Qed.
+Proof. exact xml_reload_spec. Qed.
 Print Assumptions xml_reload_same_kinds.
 
 (* ---- non-vacuity ---- *)
